@@ -206,6 +206,16 @@ fn projects() -> Vec<Project> {
         dup_ids: vec![],
     });
     v.push(Project {
+        name: "recovered-errors-then-a-fatal-one",
+        files: vec![
+            ("broken", "package p; parcelable B { int ; int x = ; }\n#"),
+            ("broken2", "package p; interface C { void f() = 99999999999; void ( ; }\n$"),
+            ("good", "package p; import p.B; interface A { void f(in B b); }"),
+            ("good2", "package q; parcelable D { int x; }"),
+        ],
+        dup_ids: vec![],
+    });
+    v.push(Project {
         name: "forward-declaration-in-another-file",
         files: vec![
             ("a", "package a; parcelable Payload; parcelable Extra; interface A { void f(in Payload p); }"),
@@ -902,7 +912,7 @@ pub fn run(tier: Tier, seed: u64) -> i32 {
     let multi = stats.states.load(std::sync::atomic::Ordering::Relaxed) > 1000;
     finish(
         &stats,
-        "29 projects built to collide (several diagnostics on one line, several unresolved / unused imports and forward declarations, two imports matching one name, a declaration conflicting with several imports, one key registered twice, files without a tree, recovered syntax errors after validation diagnostics) x insertion orders (all permutations up to the stated cap) x plain / replace histories x base keys of new threads x repeated validate() calls; hash seeds are owned through the getrandom shim and the sweep continues until every hash container of <= 4 elements has been observed (hook H3) in all its iteration orders at every site; all outputs of one project must be equal and every file's diagnostics ascending in (line, column); states = validate() calls compared; distinct_nontrivial = distinct iteration-order tuples observed",
+        "30 projects built to collide (several diagnostics on one line, several unresolved / unused imports and forward declarations, two imports matching one name, a declaration conflicting with several imports, one key registered twice, files without a tree, recovered syntax errors after validation diagnostics) x insertion orders (all permutations up to the stated cap) x plain / replace histories x base keys of new threads x repeated validate() calls; hash seeds are owned through the getrandom shim and the sweep continues until every hash container of <= 4 elements has been observed (hook H3) in all its iteration orders at every site; all outputs of one project must be equal and every file's diagnostics ascending in (line, column); states = validate() calls compared; distinct_nontrivial = distinct iteration-order tuples observed",
         &[
             "std's RandomState takes its keys from getrandom(2) once per thread and increments them per instance; the LD_PRELOAD shim makes them a function of the harness-chosen base key (self-tested at start-up)",
             "hook H3 only observes the order of the container the library is about to iterate",
